@@ -4,6 +4,7 @@ what the caller asked for, per transmission attempt, on first use and on reuse; 
 heads must give LocalProtocolError with nothing of the request on the wire."""
 from __future__ import annotations
 
+import copy
 import random
 
 from .. import REPO  # noqa: F401
@@ -19,7 +20,9 @@ RULE = ("seeded requests: method tokens, origin-form targets and the 'target' ex
         "Transfer-Encoding), bodies None / bytes / iterator with arbitrary chunking incl. empty chunks; sequences "
         "of 3 requests per pool (first use + reuse) on HTTP/1.1 and HTTP/2 in all three flavours; illegal heads "
         "(bad method / target / header name / header value); distinct+non-trivial = (proto, legal?, illegal kind, "
-        "target form, host supplied?, framing supplied, body kind, position in sequence)")
+        "target form, host supplied?, framing supplied, body kind, position in sequence); the URL is passed as str, bytes or one "
+        "httpcore.URL object kept by the caller for the whole sequence, and the caller's URL / header list / extensions must "
+        "be unchanged after every call")
 ASSUMPTIONS = ["HTTP/1.1 wire decoded by the harness parser (no h11); HTTP/2 by the h2 library in the server role",
                "identical duplicate Content-Length values may be merged (protocol-equivalent)"]
 REQUIRED = ["requests_legal", "oracle_wire", "requests_illegal", "oracle_illegal", "reuse_checked"]
@@ -137,7 +140,7 @@ def run_case(case):
     flavor, proto = case["flavor"], case["proto"]
     h2 = proto == "h2"
     viol = []
-    cnt = {"requests_legal": 0, "requests_illegal": 0, "oracle_wire": 0, "oracle_illegal": 0, "reuse_checked": 0,
+    cnt = {"oracle_caller_objects": 0, "requests_legal": 0, "requests_illegal": 0, "oracle_wire": 0, "oracle_illegal": 0, "reuse_checked": 0,
            "body_bytes_checked": 0, "sequences": 0}
     sigs = set()
     sample = {}
@@ -147,6 +150,7 @@ def run_case(case):
             viol.append({"key": key, "what": what, "detail": detail})
 
     async def main():
+        seq_no = 0
         for seq in case["seqs"]:
             cnt["sequences"] += 1
             net = simnet.Net()
@@ -155,6 +159,9 @@ def run_case(case):
             api = API(flavor, pool, net)
             scheme = "https" if h2 else "http"
             legal_seen = 0
+            seq_no += 1
+            shared_path = next((x["path"] for x in seq if not x["illegal"]), "/")
+            shared_url = httpcore.URL(f"{scheme}://o.test{shared_path}")
             for pos, q in enumerate(seq):
                 parts = body_bytes(q)
                 if q["body_kind"] == "none":
@@ -164,17 +171,34 @@ def run_case(case):
                 else:
                     content = api.body(parts)
                 ext = {"target": q["target_ext"].encode("latin1")} if q["target_ext"] is not None else {}
+                # the URL is given as str, as bytes, or as one httpcore.URL object that the caller keeps using for the
+                # whole sequence (the harness keeps its own model of what each request means)
+                url_form = ("str", "bytes", "object")[(pos + seq_no) % 3]
+                if url_form == "object":
+                    q = dict(q, path=shared_path)
+                    url_arg = shared_url
+                elif url_form == "bytes":
+                    url_arg = f"{scheme}://o.test{q['path']}".encode("latin1")
+                else:
+                    url_arg = f"{scheme}://o.test{q['path']}"
+                hdr_arg = [(k.encode("latin1"), x.encode("latin1")) for k, x in q["headers"]]
+                snap = (bytes(shared_url), shared_url.target, list(hdr_arg), copy.deepcopy(ext))
                 before_reqs = len(origin.requests)
                 before_written = sum(t.written for t in net.transports)
                 before_anom = len(origin.anomalies)
 
                 async def scen():
-                    r_ = await api.request(q["method"].encode("latin1"), f"{scheme}://o.test{q['path']}",
-                                           headers=[(k.encode("latin1"), x.encode("latin1")) for k, x in q["headers"]],
+                    r_ = await api.request(q["method"].encode("latin1"), url_arg, headers=hdr_arg,
                                            content=content, extensions=ext)
                     return r_.status
 
                 out = await guarded(flavor, scen)
+                cnt["oracle_caller_objects"] += 1
+                after = (bytes(shared_url), shared_url.target, list(hdr_arg), ext)
+                for name, a_, b_ in zip(("url", "url-target", "headers", "extensions"), snap, after):
+                    if a_ != b_:
+                        v(f"caller-object-mutated:{name}", f"the caller's {name} changed from {a_!r} to {b_!r} during "
+                          f"the call (URL given as {url_form})", {"flavor": flavor, "proto": proto, "position": pos})
                 form = ("ext:" + ("*" if q["target_ext"] == "*" else "abs" if "://" in (q["target_ext"] or "") else "other")
                         ) if q["target_ext"] else "origin"
                 ctx = {"request": {k: q[k] for k in ("method", "path", "target_ext", "headers", "body_kind", "chunks", "illegal")},
